@@ -2,6 +2,7 @@ package rules
 
 import (
 	"go/constant"
+	"go/token"
 	"strings"
 
 	"golang.org/x/tools/go/ssa"
@@ -242,7 +243,7 @@ func c13zero(c *core.Ctx, R string) {
 					}
 					if ifi, isIf := gb.Instrs[len(gb.Instrs)-1].(*ssa.If); isIf {
 						if cmpv, isB := ifi.Cond.(*ssa.BinOp); isB {
-							if isZeroConst(cmpv.X) || isZeroConst(cmpv.Y) {
+							if isZeroTest(cmpv) {
 								// the zero test must come after every digit-trimming step: a zero
 								// written with a fraction (-0.0) has digits left until the trailing
 								// zeros are trimmed
@@ -293,7 +294,7 @@ func c13zero(c *core.Ctx, R string) {
 				for _, gb := range cmp.Blocks {
 					if gb != b && gb.Dominates(b) && len(gb.Instrs) > 0 {
 						if ifi, isIf := gb.Instrs[len(gb.Instrs)-1].(*ssa.If); isIf {
-							if cmpv, isB := ifi.Cond.(*ssa.BinOp); isB && (isZeroConst(cmpv.X) || isZeroConst(cmpv.Y)) {
+							if cmpv, isB := ifi.Cond.(*ssa.BinOp); isB && isZeroTest(cmpv) {
 								ok, why = true, "Cmp returns 0 for two zeros before looking at the signs"
 							}
 						}
@@ -315,4 +316,26 @@ func c13zero(c *core.Ctx, R string) {
 
 func fieldNameOf(fa *ssa.FieldAddr) string {
 	return absintFieldName(fa)
+}
+
+// isZeroTest: a comparison that separates 0 from the positive values of a length:
+// x == 0, x != 0, x <= 0, x > 0, x < 1, x >= 1 (and the mirrored spellings).
+func isZeroTest(b *ssa.BinOp) bool {
+	isConst := func(v ssa.Value, n int64) bool {
+		c, ok := v.(*ssa.Const)
+		if !ok || c.Value == nil {
+			return false
+		}
+		k, ok := constantInt64(c.Value)
+		return ok && k == n
+	}
+	switch b.Op {
+	case token.EQL, token.NEQ:
+		return isConst(b.X, 0) || isConst(b.Y, 0)
+	case token.LEQ, token.GTR:
+		return isConst(b.Y, 0) || isConst(b.X, 1)
+	case token.LSS, token.GEQ:
+		return isConst(b.Y, 1) || isConst(b.X, 0)
+	}
+	return false
 }
